@@ -584,6 +584,29 @@ from pvc.sym import mat_add, mat_inv, mat_mm, mat_sub, mat_T  # noqa: E402
 nis_f = lambda nu, sinv: mat_el(mat_mm(mat_mm(mat_T(nu), sinv), nu), 0, 0)
 
 
+def spec_predict_cov(G, P, V, M):
+    """G P G^T + V M V^T"""
+    return mat_add(mat_mm(G, mat_mm(P, mat_T(G))), mat_mm(V, mat_mm(M, mat_T(V))))
+
+
+def spec_S(H, P, Q):
+    """innovation covariance H P H^T + Q"""
+    return mat_add(mat_mm(H, mat_mm(P, mat_T(H))), Q)
+
+
+def spec_K(P, H, Sinv):
+    """Kalman gain P H^T S^-1"""
+    return mat_mm(P, mat_mm(mat_T(H), Sinv))
+
+
+def spec_state(x, K, nu):
+    return mat_add(x, mat_mm(K, nu))
+
+
+def spec_cov(P, K, H):
+    return mat_sub(P, mat_mm(K, mat_mm(H, P)))
+
+
 def threshold(k, m):
     """k * sqrt(2m) + m  (spec side; sqrt as the same uninterpreted function with its defining law)."""
     return k * sqrt_f(z3.ToReal(2 * m)) + z3.ToReal(m)
@@ -715,7 +738,7 @@ class ProcessModel(Contract):
             V = [t for t in I.path.ghost.get("jacobians", {}).get("control_jacobian", [])]
             Pt, Mt = call.snap["Pterm"], W.process_noise.term
             if len(G) == 1 and len(V) == 1:
-                spec = mat_add(mat_mm(G[0], mat_mm(Pt, mat_T(G[0]))), mat_mm(V[0], mat_mm(Mt, mat_T(V[0]))))
+                spec = spec_predict_cov(G[0], Pt, V[0], Mt)
                 P.oblige(f"{pre}.covariance", cd.term == spec, theory="euf")
             else:
                 P.oblige(f"{pre}.covariance", z3.BoolVal(False), note="Jacobians not evaluated exactly once each at the input")
@@ -769,10 +792,10 @@ class SensorUpdate(Contract):
             return
         H, hxt = Hs[0], hx[0]
         Pt, xt, zt, Qt = call.snap["Pterm"], call.snap["xterm"], call.snap["zterm"], W.Q.term
-        S = mat_add(mat_mm(H, mat_mm(Pt, mat_T(H))), Qt)
+        S = spec_S(H, Pt, Qt)
         Sinv = mat_inv(S)
         nu = mat_sub(zt, hxt)
-        K = mat_mm(Pt, mat_mm(mat_T(H), Sinv))
+        K = spec_K(Pt, H, Sinv)
         # recorded values
         inn = [v for k, v in W.innovations.writes]
         spu = [v for k, v in W.spu.writes]
@@ -802,8 +825,8 @@ class SensorUpdate(Contract):
                 okc = rv[0].cls is W.State and rv[1].cls is W.Covariance
                 P.oblige(f"{pre}.result_types", z3.BoolVal(okc))
                 if okc:
-                    P.oblige(f"{pre}.state_update", rv[0].fields["data"].term == mat_add(xt, mat_mm(K, nu)), theory="euf")
-                    P.oblige(f"{pre}.covariance_update", rv[1].fields["data"].term == mat_sub(Pt, mat_mm(K, mat_mm(H, Pt))), theory="euf")
+                    P.oblige(f"{pre}.state_update", rv[0].fields["data"].term == spec_state(xt, K, nu), theory="euf")
+                    P.oblige(f"{pre}.covariance_update", rv[1].fields["data"].term == spec_cov(Pt, K, H), theory="euf")
         W.frame_unchanged(P, pre)
         P.oblige(f"{pre}.frame.state", z3.And(z3.BoolVal(call.state.fields["data"] is call.snap["state"]), z3.BoolVal(z3.eq(call.snap["state"].term, xt))))
         P.oblige(f"{pre}.frame.covariance", z3.And(z3.BoolVal(call.cov.fields["data"] is call.snap["cov"]), z3.BoolVal(z3.eq(call.snap["cov"].term, Pt))))
